@@ -9,9 +9,17 @@ alive*.  When a node is created its (SQL, parameters) on five dialects are snaps
 * two consecutive compilations of the new node must agree, and compiling must not change the node's fingerprint:
   "compilation is deterministic and does not modify the statement";
 * ``copy.copy``, ``_clone()`` and a pickle round trip of the node must compile to the node's snapshot;
+* the same chain applied to untouched objects (no ancestor ever compiled) must compile like the node in the tree:
+  whatever compile()/derivation left behind in an ancestor must not leak into statements derived from it;
 * after the whole tree exists (and everything above happened to every node) every node is compiled again and must
   reproduce its snapshot: nothing derived later, copied, pickled or compiled has changed an earlier statement.
 
+A problem found in the tree is re-run on fresh objects (``probe``) and its chain is shrunk call by call while the same
+class of problem persists, so a root cause has one signature ``<class>: <base>.<chain> [then .<call>] -> <what>``.
+A tree in which a receiver was found modified re-baselines its live nodes and counts (does not report) the
+deviations that do not reproduce on fresh objects: they are consequences of the reported modification.
+
+Mutations caught (each alone in a private copy, ``VF_REPO=/tmp/wt-stmt1 ./check C03 --no-evidence``):
 MUTATIONS
 """
 from __future__ import annotations
@@ -49,8 +57,9 @@ META = dict(
     technique="exhaustive tree of generative-call chains on live statement objects; every node snapshotted at creation "
     "and re-validated after all later operations; receiver/compile side-effect fingerprints at every step",
     design_ref="DESIGN.md §5 C03",
-    level_text="All chains of <=3 (quick) / <=4 (thorough, last level over the state-changing half of the alphabet) "
-    "generative calls over a per-base alphabet of 12-30 calls with fixed small arguments, from 8 base statements, are "
+    level_text="All chains of <=3 (quick; all chains <=2, the 3rd call state-changing below state-changing chains) / <=4 "
+    "(thorough; all chains <=3, the 4th call state-changing below state-changing chains) "
+    "generative calls over a per-base alphabet of 12-33 calls with fixed small arguments, from 8 base statements, are "
     "materialised as a tree of live objects. Each node's SQL string and parameters on sqlite, postgresql, mysql, mssql "
     "and oracle are recorded when the node is created, compared between two consecutive compilations, compared with "
     "the compilations of its copy.copy / _clone() / pickle round trip, and compared again after the complete tree has "
@@ -67,8 +76,9 @@ META = dict(
     "some dialect",
     assumptions=["single-threaded construction", "dialects instantiated without a DBAPI (default options)"],
     bounds=dict(
-        quick="all chains of <= 3 calls from each of 8 bases; 5 dialects; copy/clone/pickle of every node",
-        thorough="all chains of <= 3 calls plus every 4th call from the state-changing sub-alphabet; 5 dialects",
+        quick="all chains of <= 2 calls plus, below chains of state-changing calls, every 3rd state-changing call, from "
+        "each of 8 bases; 5 dialects; copy/clone/pickle of every node",
+        thorough="all chains of <= 3 calls plus, below chains of state-changing calls, every 4th state-changing call; 5 dialects",
     ),
 )
 SHARD_TIMEOUT = dict(quick=600, thorough=3000)
@@ -149,6 +159,8 @@ def _ops_compound(g):
         ("limit(2)", lambda s: s.limit(2), True),
         ("offset(1)", lambda s: s.offset(1), True),
         ("fetch(3)", lambda s: s.fetch(3), False),
+        # the dialect-keyword form lives in this (small) tree only: see the finding on shared dialect_options
+        ("fetch(3,oracle_approx)", lambda s: s.fetch(3, oracle_fetch_approximate=True), False),
         ("group_by(x)", lambda s: s.group_by("x"), True),
         ("execution_options", lambda s: s.execution_options(foo=1), False),
         ("params(p=7)", lambda s: s.params(p=7), True),
@@ -242,7 +254,7 @@ def _ops_text(g):
         ("cte().select", sel(lambda s: select(s.cte("tc"))), True),
         ("where(x)", sel(lambda s: s.where(column("x") > 1)), True),
         ("order_by(id)", sel(lambda s: s.order_by(column("id"))), True),
-        ("limit(2)", sel(lambda s: s.limit(2)), True),
+        ("distinct()", sel(lambda s: s.distinct() if hasattr(s, "distinct") else None), True),
         ("bindparams on select", sel(lambda s: s.bindparams(p=3)), False),
     ]
 
@@ -343,7 +355,27 @@ def snapshot(stmt, dialects):
             out.append((str(comp), repr(sorted(comp.params.items(), key=lambda kv: str(kv[0])))))
         except ACCEPTABLE as e:
             out.append(("refused", type(e).__name__))
+        except Exception as e:  # noqa
+            # an internal error while compiling is C22's subject; here it is just this node's (stable) outcome
+            if not _raised_inside_sqlalchemy(e):
+                raise
+            INTERNAL_ERRORS.add("compile: %s in %s" % (type(e).__name__, _raised_inside_sqlalchemy(e)))
+            out.append(("internal error", type(e).__name__))
     return tuple(out)
+
+
+INTERNAL_ERRORS = set()
+
+
+def _raised_inside_sqlalchemy(e):
+    import traceback
+
+    from ..core import SA_DIR
+
+    fr = traceback.extract_tb(e.__traceback__)[-1]
+    if fr.filename.startswith(SA_DIR):
+        return "%s:%s" % (fr.filename[len(SA_DIR) + 1:], fr.name)
+    return None
 
 
 def _ck(stmt):
@@ -437,6 +469,14 @@ def call(stmt, fn):
         # e.g. .where() on the CompoundSelect returned by union(): not part of that object's API
         if "has no attribute" in str(e) or "object is not callable" in str(e):
             return None
+        if _raised_inside_sqlalchemy(e):
+            INTERNAL_ERRORS.add("derivation: %s in %s" % (type(e).__name__, _raised_inside_sqlalchemy(e)))
+            return None
+        raise
+    except Exception as e:  # noqa
+        if _raised_inside_sqlalchemy(e):  # internal error inside a generative method: C22's kind of finding, not C03's
+            INTERNAL_ERRORS.add("derivation: %s in %s" % (type(e).__name__, _raised_inside_sqlalchemy(e)))
+            return None
         raise
 
 
@@ -457,11 +497,12 @@ def check_call(node, opname, fn, dialects, recompile):
     return new, problems
 
 
-def check_new(stmt, dialects):
-    """snapshot a new statement; compilation must be deterministic and must not modify it"""
+def check_new(stmt, dialects, twice=True):
+    """snapshot a new statement; compilation must be deterministic and must not modify it.
+    ``twice=False`` (explorer): the second compilation of every node is the one of the final pass."""
     fp0 = fingerprint(stmt)
     snap = snapshot(stmt, dialects)
-    snap2 = snapshot(stmt, dialects)
+    snap2 = snapshot(stmt, dialects) if twice else snap
     problems = []
     if snap != snap2:
         d = first_diff(snap, snap2, dialects)
@@ -472,9 +513,13 @@ def check_new(stmt, dialects):
     return snap, problems
 
 
-def check_copies(node, dialects, rec=None):
-    """copy.copy / _clone() / pickle round trip compile like the original"""
+def check_copies(node, dialects, rec=None, only=None):
+    """copy.copy / _clone() / pickle round trip compile like the original (``only``: index of the single dialect
+    the explorer uses for this node -- it rotates over the nodes; a probe uses all of them)"""
     st = node.stmt
+    base_snap = node.snap
+    if only is not None:
+        dialects, base_snap = [dialects[only]], (node.snap[only],)
     variants = [("copy.copy", lambda: copy.copy(st))]
     if hasattr(st, "_clone"):
         variants.append(("_clone()", lambda: st._clone()))
@@ -497,10 +542,33 @@ def check_copies(node, dialects, rec=None):
         if rec:
             rec.transition()
         snap = snapshot(cp, dialects)
-        if snap != node.snap:
-            d = first_diff(node.snap, snap, dialects)
+        if snap != base_snap:
+            d = first_diff(base_snap, snap, dialects)
             problems.append(("%s compiles differently" % what, "%s on %s" % (d[1], d[0]), "original: %r\ncopy:     %r" % (d[2], d[3])))
     return problems
+
+
+def check_fresh_route(base, node, dialects, only=None):
+    """The same chain applied to untouched objects (fresh base, fresh arguments, no ancestor ever compiled, copied
+    or pickled) must compile like the node that was derived from compiled / copied / pickled ancestors: if compiling
+    (or deriving from) a statement left anything behind in it, the two routes differ."""
+    g = Args()
+    mk, opsf = BASE_BY_NAME[base]
+    ops = {o[0]: o[1] for o in opsf(g)}
+    stmt = mk(g)
+    for name in node.chain:
+        stmt = call(stmt, ops[name])
+        if stmt is None:
+            return []
+    base_snap = node.snap
+    if only is not None:
+        dialects, base_snap = [dialects[only]], (node.snap[only],)
+    snap = snapshot(stmt, dialects)
+    if snap != base_snap:
+        d = first_diff(base_snap, snap, dialects)
+        return [("derived from compiled ancestors it differs from the same chain on untouched objects",
+                 "%s on %s" % (d[1], d[0]), "in the tree:      %r\nuntouched route:  %r" % (d[2], d[3]))]
+    return []
 
 
 def check_final(node, dialects):
@@ -540,6 +608,7 @@ def probe(base, chain, op, dialects):
         nodes.append(node)
     if op is None:
         problems += check_copies(node, dialects)
+        problems += check_fresh_route(base, node, dialects)
         for n in nodes:
             problems += check_final(n, dialects)
     else:
@@ -582,10 +651,37 @@ def signature(base, chain, op, problem):
     return "%s: %s%s -> %s" % (problem[0], chain_name(base, chain), (" then ." + op) if op else "", problem[1])
 
 
+_TREES_WITH_A_REPORTED_MODIFICATION = set()
+
+
+_REPORTS = [0]
+_SEEN_KEYS = set()
+MAX_ANALYSED_PER_SHARD = 14
+
+
 def report(rec, base, chain, op, problems, dialects, shard):
     for pr in problems:
+        # one analysis per (class, what differs, the call that completed the chain): later, larger chains ending in
+        # the same call with the same symptom shrink to the same minimal chain
+        key = (pr[0], pr[1], chain[-1] if chain else None, op)
+        if key in _SEEN_KEYS:
+            rec.count("problems_repeating_an_analysed_one")
+            continue
+        _SEEN_KEYS.add(key)
+        _REPORTS[0] += 1
+        if _REPORTS[0] > MAX_ANALYSED_PER_SHARD:
+            # enough minimised findings from this tree; the rest is counted (simplest-first order: these are larger)
+            rec.count("further_problems_in_this_tree_not_minimised")
+            rec.violation(signature(base, chain, op, pr) + " (not minimised)", pr[2],
+                          dict(kind="tree", shard=list(shard), base=base, chain=list(chain), op=op))
+            continue
         m = minimise(base, chain, op, pr[0], dialects)
         if m is None:
+            if tuple(shard) in _TREES_WITH_A_REPORTED_MODIFICATION:
+                # does not reproduce on fresh objects and a receiver of this tree is known to have been modified in
+                # place (reported): statements sharing that receiver's internals deviate as a consequence
+                rec.count("tree_only_deviations_explained_by_a_reported_receiver_modification")
+                continue
             # only inside the tree (needs sibling effects): keep the tree as the replayable case
             rec.violation(signature(base, chain, op, pr) + " (inside the tree of shard %r only)" % (shard,), pr[2],
                           dict(kind="tree", shard=list(shard), base=base, chain=list(chain), op=op))
@@ -615,16 +711,28 @@ def explore(rec, base, first, depth, dialects, tier, shard):
         rec.transition()
         new, pr = check_call(node, name, fn, dialects, False)
         if pr:
+            now = snapshot(node.stmt, dialects)
+            if now != node.snap:  # the property's own words: the SQL / parameters of the receiver changed
+                d = first_diff(node.snap, now, dialects)
+                pr.append(("receiver compiles differently after a generative call", "%s on %s" % (d[1], d[0]),
+                           "before: %r\nafter:  %r" % (d[2], d[3])))
             report(rec, base, node.chain, name, pr, dialects, shard)
             tainted.add(node.chain)
-            node.snap = snapshot(node.stmt, dialects)
+            _TREES_WITH_A_REPORTED_MODIFICATION.add(tuple(shard))
+            # statements derived earlier may share the modified internals: re-baseline every live node so that
+            # only *new* changes are reported from here on (consequences of this one are counted, not reported)
+            for other in nodes:
+                s2 = snapshot(other.stmt, dialects)
+                if s2 != other.snap:
+                    rec.count("live_nodes_changed_as_a_consequence_of_a_reported_receiver_modification")
+                    other.snap = s2
         if new is None:
             rec.count("calls_refused_or_not_applicable")
             return None
         if new is node.stmt:
             rec.count("calls_returning_the_receiver_unchanged")
             return None
-        snap, pr = check_new(new, dialects)
+        snap, pr = check_new(new, dialects, twice=False)
         rec.trace()
         chain = node.chain + (name,)
         if pr:
@@ -641,10 +749,15 @@ def explore(rec, base, first, depth, dialects, tier, shard):
         n = expand(root, name, fn)
         if n is not None and i == first:
             frontier.append(n)
+    core_names = set(name for name, _, core_op in ops if core_op)
     for lvl in range(2, depth + 1):
         nxt = []
-        last_extra = tier == "thorough" and lvl == depth and depth > 3
+        # the last level of a tier applies the state-changing ("core") half of the alphabet, below chains made of
+        # core calls; the levels before it are complete
+        last_extra = lvl == depth and depth >= 3
         for node in frontier:
+            if last_extra and not all(c_ in core_names for c_ in node.chain):
+                continue
             for name, fn, core_op in ops:
                 if last_extra and not core_op:
                     continue
@@ -652,11 +765,13 @@ def explore(rec, base, first, depth, dialects, tier, shard):
                 if n is not None:
                     nxt.append(n)
         frontier = nxt
-    for node in nodes:
+    for i, node in enumerate(nodes):
         if node.chain in tainted:
             rec.count("checks_skipped_on_nodes_already_reported_as_modified")
             continue
-        pr = check_copies(node, dialects, rec)
+        pr = check_copies(node, dialects, rec, only=i % len(dialects))
+        pr += check_fresh_route(base, node, dialects, only=(i + 2) % len(dialects))
+        rec.transition()
         if pr:
             report(rec, base, node.chain, None, pr, dialects, shard)
     for node in nodes:
@@ -665,7 +780,12 @@ def explore(rec, base, first, depth, dialects, tier, shard):
             continue
         pr = check_final(node, dialects)
         if pr:
+            key = (pr[0][0], pr[0][1], node.chain[-1] if node.chain else None, None)
+            if key in _SEEN_KEYS:
+                rec.count("problems_repeating_an_analysed_one")
+                continue
             attribute_final(rec, base, node, pr, ops, dialects, shard)
+            _SEEN_KEYS.add(key)
     return nodes
 
 
@@ -683,10 +803,16 @@ def attribute_final(rec, base, node, pr, ops, dialects, shard):
 
 def run_shard(shard, tier, rec):
     base, first = shard
+    _REPORTS[0] = 0
+    _SEEN_KEYS.clear()
+    _TREES_WITH_A_REPORTED_MODIFICATION.discard(tuple(shard))
     dialects = sg.DIALECTS()
     depth = 3 if tier == "quick" else 4
     nodes = explore(rec, base, first, depth, dialects, tier, shard)
     rec.count("nodes", len(nodes))
+    for x in sorted(INTERNAL_ERRORS):
+        rec.note("internal error met (not judged by C03, see C22): " + x)
+    INTERNAL_ERRORS.clear()
     for n in nodes[-3:]:
         rec.sample(dict(chain=chain_name(base, n.chain), sqlite=n.snap[0][0].replace("\n", " ")[:200]), limit=2)
 
